@@ -875,12 +875,7 @@ def check_mount_primitives(rep, drv, steps):
                 continue
             if not ents:
                 continue
-            q = path
-            if meth == "removedir":
-                n = ref_resolve(path.split("/"))
-                if n is None:
-                    continue
-                q = ("/" if path.startswith("/") else "") + "/".join(n)
+            q = path   # every method hands `_delegate` the caller's path (removedir too, since /repo 48e26ed)
             reqs.append("mount.delegate %s %s" % (hxlist(s.keys), hx(q)))
             meta.append((s, mm, meth, path, ents[0]))
     for line, (s, mm, meth, path, e) in zip(drv.batch(reqs), meta):
@@ -912,6 +907,8 @@ def exhaustive_mount(rep, drv, tier):
             paths.append("/" + body)
             paths.append(body)
             paths.append(body + "/")
+    # since /repo 48e26ed `_delegate` refuses a NUL on the RAW path (InvalidCharsInPath) before normalising it away
+    paths += ["a/z\0/../b", "z\0/../a", "a/b\0", "\0", "ab/\0/..", "z\0/../..", "/a/b/\0/../x/"]
     tables = []
     for n in range(0, 5):
         tables += list(itertools.permutations(EX_MOUNTS, n))
@@ -939,6 +936,10 @@ def exhaustive_mount(rep, drv, tier):
                 e = "err " + H.exc_name(ex)
             reqs.append("mount.delegate %s %s" % (hxlist(keys), hx(p)))
             expect.append(("delegate", (keys, p), e))
+            if "\0" in p and e != "err InvalidCharsInPath" and n_reports(rep, True) < MAX_REPORTS:
+                rep.violation({"mounts": list(tab), "path": p, "delegate": e},
+                              "MountFS(%r)._delegate(%r) = %s: a path with NUL reaches a member (its NUL may be normalised "
+                              "away on the way)" % (keys, p, e), found_input=True, signature="C17/mount/_delegate/nul")
             # the property itself: the chosen member's mount point is a whole-component prefix
             cs = comps(p)
             if cs is not None and e.startswith("ok "):
